@@ -23,6 +23,8 @@ OPS = [
     ("RM", "b.py"), ("RM", "d"), ("RM", "d/a.py"), ("RM", "e"),
     # a move whose destination folder does not exist: the file system refuses it, so the composite fails by itself
     ("MVX", "b.py", "q/b.py"),
+    # creations whose target already exists: refused, and the existing file / folder must survive the clean-up
+    ("CFX", "", "b.py"), ("CDX", "", "d"),
 ]
 OPS_SMALL = [o for o in OPS if o in (
     ("W", "a.py"), ("W", "e/n.py"), ("CF", "e", "n.py"), ("CD", "", "e"), ("MV", "a.py", "e/a.py"),
@@ -52,6 +54,8 @@ def apply_model(m, op):
             if not m.exists(op[1]):
                 return False
             m.remove(op[1])
+        elif k in ("CFX", "CDX"):
+            return m.exists(op[2])
         elif k == "MVX":
             # no effect in the model: the real move must fail (missing destination folder) and undo everything before it
             return m.is_file(op[1]) and not m.exists(op[2].split("/")[0])
@@ -90,10 +94,10 @@ def build_change(project, ops, model, desc="composite"):
             continue
         if k == "W":
             cs.add_change(change.ChangeContents(project.get_file(o[1]), "NEW %s\n" % o[1]))
-        elif k == "CF":
+        elif k in ("CF", "CFX"):
             parent = project.get_folder(o[1]) if o[1] else project.root
             cs.add_change(change.CreateFile(parent, o[2]))
-        elif k == "CD":
+        elif k in ("CD", "CDX"):
             parent = project.get_folder(o[1]) if o[1] else project.root
             cs.add_change(change.CreateFolder(parent, o[2]))
         elif k in ("MV", "MVX"):
@@ -170,7 +174,7 @@ class C10(Check):
     chunksize = 8
 
     def bound_text(self, tier):
-        return "composite length <=3 full alphabet (24 ops) + nested variants" if tier == "quick" else \
+        return "composite length <=3 full alphabet (26 ops) + nested variants" if tier == "quick" else \
             "length <=3 full alphabet + nested, length 4 over 12-op sub-alphabet"
 
     def cases(self, tier):
@@ -242,8 +246,9 @@ class C10(Check):
                 if env.fs.n > 1:
                     res["nt"].append(h8([op_str(ops) if ops else case, "self-failure"]))
                 sf = ["phase:do", "dev:none-composite-fails-by-itself"]
-                if ops and "MVX" in flat_kinds:
-                    sf += ["eff:" + k for k in flat_kinds[:flat_kinds.index("MVX")]]     # sub-changes applied before the refused one
+                refused = [i for i, k in enumerate(flat_kinds) if k in ("MVX", "CFX", "CDX")]
+                if ops and refused:
+                    sf += ["eff:" + k for k in flat_kinds[:refused[0]]]     # sub-changes applied before the refused one
                 if snap(env.root) != T0:
                     fail("tree-differs", sf, {"expected": show(T0), "got": show(snap(env.root)), "exception": repr(e)})
                 elif env.hist() != hist0:
